@@ -516,7 +516,7 @@ def stream_programs(run, model, work, holds, nfun, chunk, max_shrinks):
                 continue
             if max_shrinks[0] > 0:
                 max_shrinks[0] -= 1
-                small = shrink(work, kind, [s.clone() for s in body], holds, rounds=8)
+                small = shrink(work, kind, [s.clone() for s in body], holds, rounds=6)
             elif not ls:
                 small = body
             else:
@@ -605,7 +605,7 @@ def check(run, replay):
             run.violation("rows:compile", "the row programs do not compile: " + str(e)[-300:], {"broken": "row templates", "detail": str(e)[-3000:]}, found_input=False)
         nfun = 120 if quick else 4000
         try:
-            stream_programs(run, model, work, holds, nfun, 60 if quick else 200, [5 if quick else 40])
+            stream_programs(run, model, work, holds, nfun, 60 if quick else 200, [3 if quick else 40])
         except C.CompileError as e:
             run.violation("facts:compile", "a generated program does not compile: " + str(e)[-300:], {"broken": "generator", "detail": str(e)[-3000:]}, found_input=False)
     finally:
